@@ -713,6 +713,11 @@ class ComponentState(object):
         def FinalStateClosure(state, shutdown):
 
             def Setter(e):
+                if shutdown and self.engine.isAlive():
+                    # Not yet: this is a notification of an earlier exit (the engine was restarted since), or a
+                    # poll that came before the engine stopped
+                    return
+
                 if self.repeatingDisposable is not None:
                     self.repeatingDisposable.dispose()
 
@@ -766,6 +771,15 @@ class ComponentState(object):
 
             self.notifyPostMortem.subscribe(on_next=final_state, on_error=on_error_notifyPostMortem)
             stop_engine()
+
+            if stopEngine:
+                # The POSTMORTEM notification is published only when the published state changes. It does not when
+                # the engine was restarted and is stopped again before its being alive was ever published, or when it
+                # was published before the subscription above existed. So also look at the engine itself until the
+                # final state is set.
+                reactivex.interval(5.0).pipe(
+                    op.take_while(lambda _: self.controllerState not in final_states)
+                ).subscribe(on_next=final_state, on_error=on_error_notifyPostMortem)
         else:
             self.controllerState = finalState
 
